@@ -123,6 +123,22 @@ def check(an, rep, tier):
                 '' if ok else 'stores of v: %s ; other literals: %s'
                 % ([paths.src(mod, s) for s in vstores],
                    [paths.src(mod, s) for s in others]))
+    # --- negative positions count from the end: the delta constructors must
+    # place v by indexing (or after normalising the position), never through a
+    # by-value comparison of the position with arange(n)
+    for r in runs:
+        if r.qualname not in ('tensors.delta', 'vectors.vector_delta',
+                              'matrices.matrix_delta'):
+            continue
+        for s_ in r.I.sites:
+            if s_.rule == 'K-negidx':
+                rep.violation('K-negidx', s_.where, s_.construct,
+                              s_.detail + ' (the delta constructors document '
+                              'negative positions as counted from the end)',
+                              line=getattr(s_.node, 'lineno', None),
+                              file=s_.mod.path if s_.mod else None)
+        rep.ok('K-negidx', r.qualname, 'position placed by indexing') \
+            if not any(s_.rule == 'K-negidx' for s_ in r.I.sites) else None
     # --- index helpers, constant folded for q <= 3
     from .. import interp
     fn_p = prog.func('utils._vector_index_prepare')
@@ -218,4 +234,5 @@ def check(an, rep, tier):
     rep.floor('T-pattern', 3, 'poly cores')
     rep.floor('S-reshape', 1, 'random core cuts')
     rep.floor('F-bits', 1, 'index helpers')
+    rep.floor('K-negidx', 3, 'negative positions of the delta constructors')
     rep.floor('R-draw-local', 3, 'random constructors')
